@@ -50,6 +50,7 @@ UNITS['queue'] = dict(
       (r'^std::chrono::duration<', 'opaque', 'Duration'),
       (r'^std::unique_lock<', 'unique_lock', 'UniqueLock'),
       (r'^EventDispatcherBase<', 'record', 'DispatcherBase'),
+      (r'^std::decay<typename super::Event>::type$|::Event$', 'builtin', 'int'),      # the event type of this instantiation, however a signature spells it
     ],
 )
 
@@ -295,11 +296,11 @@ UNITS['hdispatcher'] = dict(
     tu='inst/hdispatcher.cpp', filter=['HeterEventDispatcherBas', '_::ForEachMixins', '_::DefaultGetEvent'], std='c++11',
     root=('ClassTemplateSpecializationDecl', 'HeterEventDispatcherBase'), root_q=HDI,
     extra_roots=[('ClassTemplateSpecializationDecl', 'HeterEventDispatcherBase', HDX)],
-    names={HDI: 'HDI', HDX: 'HDX', 'VArg': 'VArg', 'WArg': 'WArg'},
+    names={HDI: 'HDI', HDX: 'HDX', 'VArg': 'VArg', 'WArg': 'WArg', 'CbV': 'CbV', 'CbW': 'CbW'},
     fn_rename=[(r'^HD([IX])_doDispatch__eventpp_ArgumentPassing(In|Ex)cludeEvent_(int|[VW])(Arg)?$', r'HD\1_doDispatch__\3'),      # lvalue call first in the TU, then the rvalue call: _2
                (r'^getEvent__int$', 'DefaultGetEvent_getEvent'), (r'^forEach$', 'NoMixins_forEach')],
     value_records=['VArg', 'WArg'],
-    opaque_records=['VArg', 'WArg', 'HCLT'],
+    opaque_records=['VArg', 'WArg', 'HCLT', 'CbV', 'CbW'],
     ghost_sig=[], env_overloads=True, rename_numbered=True, static_methods_by_type=True, equal_filters=True,
     type_resubst=[(r'(typename )?std::conditional<std::is_const<.*>::value, const CallbackList_ \*, CallbackList_ \*>::type', 'HeterCallbackList<HeterTuple<void (VArg), void (WArg)>, Pol> *')],
     env_calls={'getEvent': 'Pol_getEvent'},
